@@ -288,17 +288,6 @@ def judge_dist(e, cands, seats, val, case):
     return None
 
 
-def lr_capbranch(c):
-    """some party holds more whole quotas than the house has seats (the default cap n_seats binds)"""
-    import votelib.component.quota as vq
-    votes = [common.q(v) for _, v in c['profile']]
-    try:
-        qv = vq.get(c['evaluator'][3:])(sum(votes), c['n'])
-    except Exception:   # noqa
-        return False
-    return qv > 0 and any(v // qv > c['n'] for v in votes)
-
-
 def known_class(c, io, mo):
     ev, cls = c.get('evaluator', ''), c.get('_class', '')
     if ev == 'allocated_score' and cls == 'shape:tie-once':
@@ -307,8 +296,6 @@ def known_class(c, io, mo):
         return 'C08-preference-addition-short'
     if ev == 'star' and cls == 'shape:short':
         return 'C08-star-short'
-    if ev.startswith('lr_') and cls in ('crash:ZERODIV', 'nonpositive') and lr_capbranch(c):
-        return 'C08-lr-capbranch'
     if ev == 'tideman_alt' and cls == 'crash:TYPE' and c.get('n', 1) >= 2 and len(evalreg.candidates_of('ranked', c['profile'])) >= 2:
         return 'C08-tideman-multiseat'
     return None
